@@ -180,7 +180,11 @@ def render_verilog(desc, rng, style=None):
             return n
         if n in esc:
             feats.add('escaped')
-            return '\\' + n + ' '
+            # an escaped identifier ends at the next white space: blank, tab or line break (Verilog-2005 3.7.1)
+            term = rng.choice([' ', ' ', ' ', '\t', '\n', '\r\n', ' \n']) if st.get('noise', True) else ' '
+            if term != ' ':
+                feats.add('escaped_other_terminator')
+            return '\\' + n + term
         return n
 
     def ws():
